@@ -110,7 +110,17 @@ fn escaped_expectation_ascii(line: &[u8]) -> String {
     if encoded == escaped {
         encoded
     } else {
-        format!("{escaped} (escaped)")
+        format!("{} (escaped)", guard_tailing_no_eol(escaped))
+    }
+}
+
+/// The escaped kind drops a tailing ` (no-eol)` from its expression (Cram
+/// compatibility). Where that is content of the line, its blank is written as
+/// an escape sequence, so that it stays content.
+pub(crate) fn guard_tailing_no_eol(escaped: String) -> String {
+    match escaped.strip_suffix(" (no-eol)") {
+        Some(body) => format!("{body}\\x20(no-eol)"),
+        None => escaped,
     }
 }
 
@@ -149,7 +159,7 @@ fn escaped_expectation_unicode(line: &[u8]) -> String {
     if encoded == escaped {
         encoded
     } else {
-        format!("{escaped} (escaped)")
+        format!("{} (escaped)", guard_tailing_no_eol(escaped))
     }
 }
 
